@@ -152,7 +152,8 @@ IdRange(e) ==
 
 End(e) ==
     /\ why' = why \cup Fails(<< <<e.a \in liveIds /\ e.b \in liveH, "C06", "end-without-start">> >>)
-    /\ liveIds' = liveIds \ {e.a} /\ liveH' = liveH \ {e.b} /\ endedIds' = endedIds \cup {e.a}
+    \* the body has returned; its handle stays in use until the iteration's cleanups have run (Cleanup)
+    /\ liveIds' = liveIds \ {e.a} /\ liveH' = liveH /\ endedIds' = endedIds \cup {e.a}
     /\ IF e.d = 1 THEN failT' = failT + 1 /\ Unch(succT) ELSE succT' = succT + 1 /\ Unch(failT)
     /\ Unch(<<lmax, skipped, setupSeen, ids, cleaned, sumTicks, lateSum, dropSum, stopSeen, limitSeen, evals, firstEvalT, pendingV, progS,
               progF, cancelT, timeoutSeen, retSeen, ret, mS, mF, mD, mSetup, mSetupRes, labelsBad, stageCur, stageOpen,
@@ -163,9 +164,10 @@ Cleanup(e) ==
     /\ why' = why \cup Fails(<<
           <<e.a \in endedIds, "C06", "cleanup-before-body-ended">>,
           <<e.a \notin cleaned, "C06", "cleanup-ran-twice">>,
-          <<e.b \notin liveH, "C06", "cleanup-after-next-iteration-started-on-same-worker">> >>)
+          <<e.b \in liveH, "C06", "cleanup-after-its-handle-was-given-to-another-iteration">> >>)
     /\ cleaned' = cleaned \cup {e.a}
-    /\ Unch(<<lmax, skipped, setupSeen, ids, liveIds, liveH, endedIds, succT, failT, sumTicks, lateSum, dropSum, stopSeen, limitSeen, evals,
+    /\ liveH' = liveH \ {e.b}          \* only now is the handle free for the worker's next iteration
+    /\ Unch(<<lmax, skipped, setupSeen, ids, liveIds, endedIds, succT, failT, sumTicks, lateSum, dropSum, stopSeen, limitSeen, evals,
               firstEvalT, pendingV, progS, progF, cancelT, timeoutSeen, retSeen, ret, mS, mF, mD, mSetup, mSetupRes,
               labelsBad, stageCur, stageOpen, setupCleanupSeen, rvOK>>)
 
